@@ -53,7 +53,8 @@ def rule_R6(ctx, f):
         calls = [c for c in b.calls() if c.matches(["Fn::call", "FnMut::call_mut", "FnOnce::call_once"])]
         ok = len(calls) == 1 and count_range(b, [calls[0].bb]) == (1, 1)
         ctx.ob(rid, "metric|closure-once", ok, "the value closure must be called exactly once (found %d call sites)" % len(calls), site=b.raw["span"]["at"])
-        sv = b.calls_to("Gauge::set_value")
+        from pvrules.rules import field_sets
+        sv = field_sets(b, "Gauge", "value", ["Gauge::set_value"])
         ok2 = len(sv) == 1 and len(calls) == 1 and sv[0].args[1] == calls[0].result_term()
         ctx.ob(rid, "metric|reports-closure-result", ok2, "the sample value must be the closure's result", site=b.raw["span"]["at"])
     c = ctx.anchor(rid, "PullingGauge::collect", f.body("<prometheus::pulling_gauge::PullingGauge as prometheus::metrics::Collector>::collect"))
